@@ -10,9 +10,6 @@ unreachable because every table entry lies below `8966 + 2·1100 + 16`. -/
 namespace Zc.Survive
 open Zc Zc.Wire Zc.Wire.Encode
 
-/-- bytes a name occupies when written without compression -/
-def wireLen (n : WName) : Nat := (n.map (fun l => l.length + 1)).sum + 1
-
 /-- labels at most 63 bytes, at most 1100 bytes on the wire -/
 def NameSafe (n : WName) : Prop := (∀ l ∈ n, l.length ≤ 63) ∧ wireLen n ≤ 1100
 
